@@ -215,3 +215,14 @@ def seqof(st, v):
     n = z3.If(isl, st.get("llen", a), IT_N(v))
     arr = z3.If(isl, st.get("lelem", a), IT_ARR(v))
     return n, arr
+
+
+def seqof_set(st, v):
+    """iteration of a built-in dict/set v: its keys in the (content-determined) enumeration order.
+    The bijection facts of the enumeration are recorded in the current definitional sink."""
+    from pyvc.models import ENUM_KS
+    from pyvc.contracts import SINK
+    a = a_of(v)
+    has, dk = st.get("dhas", a), st.get("dkey", a)
+    n, ks = st.get("dsize", a), ENUM_KS(has, dk)
+    return n, ks
